@@ -134,6 +134,25 @@ impl DiffFlagDefs {
         out.into()
     }
 
+    /// Check that no name ended up as the display name of one flag while referring to another.
+    ///
+    /// This can happen when a mapfile gives a flag a name that another flag already had (e.g. `0 N-` on
+    /// top of definitions where `N` names flag 1, or `3 5-`); a label printed for a mask would then parse
+    /// back to a different mask.  (renaming every affected flag, e.g. rotating all names, is fine)
+    pub fn validate(&self) -> Result<(), Diagnostic> {
+        for (&index, name) in &self.by_flag {
+            let parsed_index = self.by_name[name];
+            if parsed_index != index {
+                return Err(error!(
+                    "difficulty flag name {:?} is ambiguous: it was given to flag {} but flag {} is still called that \
+                    (give flag {} another name)",
+                    name, parsed_index, index, index,
+                ));
+            }
+        }
+        Ok(())
+    }
+
     /// Get the set of flags not enabled by default.  Diff switches expand over these.
     pub fn difficulty_bits(&self) -> BitSet32 {
         self.flag_default_enable.complement(NUM_BITS)
